@@ -1,6 +1,7 @@
 import CLModel.Proto
 import CLModel.Compare.Merge
 import CLModel.Compare.MergeBytes
+import CLModel.Compare.MergeSession
 namespace Ops.C04
 open Proto Merge
 
@@ -152,6 +153,80 @@ def opQMerge (toks : List String) : String :=
     | _, _, _, _, _, _ => "bad-args"
   | _ => "bad-args"
 
+/-! ### round 5: sessions (one comparer, a sequence of jobs) -/
+open MergeS in
+/-- c04.capsof <name>: `parser.getParser(name).capabilities` or `none` (UserWarning) -/
+def opCapsOf (toks : List String) : String :=
+  match toks with
+  | [n] => match parseText n with
+    | some n => (match capsOfName n with | some c => toString c | none => "none")
+    | none => "bad-args"
+  | _ => "bad-args"
+
+/-- the session's filter of observer `j`: file-level questions (`entity is None`) get `fv`, keys the verdict of the
+    union of the jobs' tables, anything else "error" -/
+def sessionFilter (fv : ObsM.Ret) (ents : List (List Nat × List Char × List Nat)) (j : Nat) : ObsM.Filter :=
+  fun f d =>
+    match d with
+    | .none => fv
+    | _ => tableFilter ents j f d
+
+/-- <c|a|r> <name> <mergepath|-> <l10n> <ref> <nref> <nents> (key verdicts refAll)* <nskips> (s e junk refAll)* -/
+def parseJobs : Nat → List String → Option (List (MergeS.Job × List (List Nat × List Char × List Nat)) × List String)
+  | 0, rest => some ([], rest)
+  | n + 1, k :: name :: mp :: l10n :: ref :: nref :: ne :: rest => do
+    let kind ← (if k == "c" then some MergeS.Kind.compare else if k == "a" then some .add else if k == "r" then some .remove else none)
+    let name ← parseText name
+    let mp ← (if mp == "-" then some none else (parseText mp).map some)
+    let l10n ← parseText l10n
+    let ref ← parseText ref
+    let nref ← parseNat nref
+    let ne ← parseNat ne
+    let (ents, rest1) ← parseEnts ne rest
+    match rest1 with
+    | ns :: rest2 =>
+      let ns ← parseNat ns
+      let (skips, rest3) ← parseSkips ns rest2
+      let (js, r) ← parseJobs n rest3
+      let job : MergeS.Job := { kind := kind, name := name, mergePath := mp, l10n := l10n, ref := ref, nref := nref,
+                                ents := ents.map (fun e => (ObsM.Data.str e.1, e.2.2)), skips := skips }
+      pure ((job, ents) :: js, r)
+    | [] => none
+  | _, _ => none
+
+def insertPath {β : Type} (x : List Nat × β) : List (List Nat × β) → List (List Nat × β)
+  | [] => [x]
+  | y :: ys => if TreeM.textLe x.1 y.1 then x :: y :: ys else y :: insertPath x ys
+
+/-- c04.session <quiet> <obsspec f|n per observer> <file verdict e|w|i> <njobs> job*
+    → `<FileOut> ; … | files <path>=<bytes> … | dirs <path> … | missing=<n> report=<n>` (stage sorted by path; the
+      counters of the first project observer for locale `xx`) or the Python exception of the observers -/
+def opSession (toks : List String) : String :=
+  match toks with
+  | q :: spec :: fv :: n :: rest =>
+    match parseNat q, parseNat n with
+    | some q, some n =>
+      match parseJobs n rest with
+      | some (jes, []) =>
+        let allEnts := (jes.map (·.2)).flatten
+        let specs := spec.toList
+        let fvr := retOfChar (match fv.toList with | c :: _ => c | [] => 'e')
+        let filters : List (Option ObsM.Filter) :=
+          (List.range specs.length).map (fun j => if specs[j]? == some 'f' then some (sessionFilter fvr allEnts j) else none)
+        match MergeS.run (MergeS.St.init q filters) (jes.map (·.1)) with
+        | .error e => e.name
+        | .ok (s, outs) =>
+          let files := (s.files.foldr insertPath []).map (fun (p, b) => showText p ++ "=" ++ showText b)
+          let dirs := ((s.dirs.map (fun d => (d, ()))).foldr insertPath []).map (fun (d, _) => showText d)
+          let cnt := match s.obs.observers with
+            | o :: _ => s!"missing={ObsM.getCount o.summary (some [120, 120]) .missing} report={ObsM.getCount o.summary (some [120, 120]) .report}"
+            | [] => "missing=- report=-"
+          " ; ".intercalate (outs.map showFileOut) ++ " | files " ++ " ".intercalate files ++ " | dirs " ++ " ".intercalate dirs ++ " | " ++ cnt
+      | _ => "bad-args"
+    | _, _ => "bad-args"
+  | _ => "bad-args"
+
 def ops : List (String × (List String → String)) :=
-  [("merge", opMerge), ("c04.decode", opDecode), ("c04.decode8", opDecode8), ("c04.encode", opEncode), ("c04.mergeb", opMergeB), ("c04.qmerge", opQMerge)]
+  [("merge", opMerge), ("c04.decode", opDecode), ("c04.decode8", opDecode8), ("c04.encode", opEncode), ("c04.mergeb", opMergeB), ("c04.qmerge", opQMerge),
+   ("c04.capsof", opCapsOf), ("c04.session", opSession)]
 end Ops.C04
